@@ -16,6 +16,65 @@ open IsoVerif.Gen IsoVerif.Model IsoVerif.Model.C11
 def NoColl (k p : Int) : Prop := p ≠ -1 → p + k ≠ -1
 def NoCollM (L p : Int) : Prop := p ≠ -1 → L + 1 - p ≠ -1
 
+/-! ## the clamp of the repaired `add_polya_info` (c16x: external position cut down to the internal one) commutes with
+    both transformations: the test `both_found` reads the positions BEFORE the shift -/
+
+theorem pa16_clampA_shift (k oi oe ia ea : Int) (h1 : NoColl k oi) (h2 : NoColl k oe) :
+    C16.clampA (shiftPos k oi) (shiftPos k oe) (shiftPosBy oi k ia) (shiftPosBy oe k ea) =
+      shiftPosBy oe k (C16.clampA oi oe ia ea) := by
+  unfold C16.clampA shiftPos shiftPosBy
+  unfold NoColl at h1 h2
+  by_cases c1 : oi = -1
+  · simp [c1]
+  · by_cases c2 : oe = -1
+    · simp [c2]
+    · have a1 := h1 c1
+      have a2 := h2 c2
+      simp only [c1, c2, a1, a2, if_false, ne_eq, not_false_eq_true, and_self, if_true]
+      omega
+
+theorem pa16_clampT_shift (k oi oe ia ea : Int) (h1 : NoColl k oi) (h2 : NoColl k oe) :
+    C16.clampT (shiftPos k oi) (shiftPos k oe) (shiftPosBy oi k ia) (shiftPosBy oe k ea) =
+      shiftPosBy oe k (C16.clampT oi oe ia ea) := by
+  unfold C16.clampT shiftPos shiftPosBy
+  unfold NoColl at h1 h2
+  by_cases c1 : oi = -1
+  · simp [c1]
+  · by_cases c2 : oe = -1
+    · simp [c2]
+    · have a1 := h1 c1
+      have a2 := h2 c2
+      simp only [c1, c2, a1, a2, if_false, ne_eq, not_false_eq_true, and_self, if_true]
+      omega
+
+theorem pa16_clampA_mirror (L oi oe ia ea : Int) (h1 : NoCollM L oi) (h2 : NoCollM L oe) :
+    C16.clampA (mirrorPos L oi) (mirrorPos L oe) (mirrorPosBy oi L ia) (mirrorPosBy oe L ea) =
+      mirrorPosBy oe L (C16.clampT oi oe ia ea) := by
+  unfold C16.clampA C16.clampT mirrorPos mirrorPosBy
+  unfold NoCollM at h1 h2
+  by_cases c1 : oi = -1
+  · simp [c1]
+  · by_cases c2 : oe = -1
+    · simp [c2]
+    · have a1 := h1 c1
+      have a2 := h2 c2
+      simp only [c1, c2, a1, a2, if_false, ne_eq, not_false_eq_true, and_self, if_true]
+      omega
+
+theorem pa16_clampT_mirror (L oi oe ia ea : Int) (h1 : NoCollM L oi) (h2 : NoCollM L oe) :
+    C16.clampT (mirrorPos L oi) (mirrorPos L oe) (mirrorPosBy oi L ia) (mirrorPosBy oe L ea) =
+      mirrorPosBy oe L (C16.clampA oi oe ia ea) := by
+  unfold C16.clampA C16.clampT mirrorPos mirrorPosBy
+  unfold NoCollM at h1 h2
+  by_cases c1 : oi = -1
+  · simp [c1]
+  · by_cases c2 : oe = -1
+    · simp [c2]
+    · have a1 := h1 c1
+      have a2 := h2 c2
+      simp only [c1, c2, a1, a2, if_false, ne_eq, not_false_eq_true, and_self, if_true]
+      omega
+
 /-! ## translation -/
 
 theorem pa16_isPolyaExon_shift (mf pos k : Int) (e : Iv) :
@@ -160,6 +219,7 @@ theorem pa16_trimPolyA_shift (o : C16.PolyAInfo) (k : Int) (st : C16.AInfo) (a :
       | some ea =>
         simp only [Option.map_some, Option.bind_eq_bind, Option.bind_some]
         simp [shiftAInfoBy, shiftInfoBy, shiftL_take, shiftL_length]
+        exact pa16_clampA_shift k _ _ ia ea h1 h2
   · simp [ha]
 
 theorem pa16_trimPolyT_shift (o : C16.PolyAInfo) (k : Int) (st : C16.AInfo) (t : Int)
@@ -183,6 +243,7 @@ theorem pa16_trimPolyT_shift (o : C16.PolyAInfo) (k : Int) (st : C16.AInfo) (t :
       | some ea =>
         simp only [Option.map_some, Option.bind_eq_bind, Option.bind_some]
         simp [shiftAInfoBy, shiftInfoBy, shiftL_drop]
+        exact pa16_clampT_shift k _ _ ia ea h1 h2
   · simp [ha]
 
 theorem pa16_refreshEnds_shift (o : C16.PolyAInfo) (k : Int) (st : C16.AInfo) :
@@ -469,6 +530,7 @@ theorem pa16_trimPolyA_mirror (o : C16.PolyAInfo) (L : Int) (st : C16.AInfo) (t 
       | some ea =>
         simp only [Option.map_some, Option.bind_eq_bind, Option.bind_some]
         simp [mirrorAInfoBy, mirrorInfoBy, mirrorL_take_sub, mirrorL_length, reverse_take_sub]
+        exact pa16_clampA_mirror L _ _ ia ea h1 h2
   · simp [ha]
 
 theorem pa16_trimPolyT_mirror (o : C16.PolyAInfo) (L : Int) (st : C16.AInfo) (a : Int)
@@ -492,6 +554,7 @@ theorem pa16_trimPolyT_mirror (o : C16.PolyAInfo) (L : Int) (st : C16.AInfo) (a 
       | some ea =>
         simp only [Option.map_some, Option.bind_eq_bind, Option.bind_some]
         simp [mirrorAInfoBy, mirrorInfoBy, mirrorL_drop_eq, reverse_drop_eq]
+        exact pa16_clampT_mirror L _ _ ia ea h1 h2
   · simp [ha]
 
 theorem pa16_refreshEnds_mirror (o : C16.PolyAInfo) (L : Int) (st : C16.AInfo) :
